@@ -119,6 +119,25 @@ Theorem C04_crash_recovery_idempotent : forall types x k,
 Proof. exact crash_recovery_idempotent_thm. Qed.
 Print Assumptions C04_crash_recovery_idempotent.
 
+(* final states are fixed points of recovery: a unit at rest in ANY final state the code records —
+   Succeeded, Failed, Canceled; command, started remote, or of an unknown type — with an intact
+   record is answered with exactly that record after a restart, and nothing but the lock file is
+   touched; the same after any number of restarts *)
+Theorem C04_final_states_fixed : forall types x s,
+  uf_dir x = true -> uf_status x = Some (encode s) -> st_final (s_state s) = true ->
+  (kind_of types (s_wtype s) = KRemote -> started s = true) ->
+  exists known mon,
+    recover types x = (locked x, mkView true known s mon) /\ core (locked x) = core x.
+Proof. exact final_states_fixed_thm. Qed.
+Print Assumptions C04_final_states_fixed.
+
+Theorem C04_final_states_fixed_cycles : forall types x s k,
+  uf_dir x = true -> uf_status x = Some (encode s) -> st_final (s_state s) = true ->
+  (kind_of types (s_wtype s) = KRemote -> started s = true) ->
+  core (cycles types x k) = core x /\ v_status (snd (recover types (cycles types x k))) = s.
+Proof. exact final_states_fixed_cycles_thm. Qed.
+Print Assumptions C04_final_states_fixed_cycles.
+
 (* the hypotheses of C04_partial are satisfiable by a non-trivial history: the finished unit of
    the refutation, the same operation of the daemon, killed one step later (after the rewrite) *)
 Example C04_nonvacuous :
